@@ -243,9 +243,11 @@ def _apply_case(inp):
 for _m, _cls in (("dep", "DepolarizingNoise"), ("pauli", "PauliError"), ("loss", "PhotonLoss")):
     for _b in ("dm", "stabilizer_mixture"):
         S.item(f"{_cls}.apply.{_b}", site=f"graphiq.noise.noise_models:{_cls}.apply",
-               bound=("random mixed/pure complex density matrices n<=3" if _b == "dm" else
-                      "mixtures of 1-3 stabilizer states n<=3 (complete Clifford tableaux, signs included)")
-                     + "; every register (and every ordered register pair for depolarizing); strengths {0, 1/4, 1/2, 3/4, 1} + random",
+               bound="fixed list, seed-independent (touches known finding C06-F1): X|Y|Z on four explicit stabilizer mixtures n<=2"
+               if (_m, _b) == ("pauli", "stabilizer_mixture") else
+               ("random mixed/pure complex density matrices n<=3" if _b == "dm" else
+                "mixtures of 1-3 stabilizer states n<=3 (complete Clifford tableaux, signs included)")
+               + "; every register (and every ordered register pair for depolarizing); strengths {0, 1/4, 1/2, 3/4, 1} + random",
                clause=f"supported noise model {_cls}: acts as its channel, keeps the result PSD, scales the trace by the survival probability")(_apply_case)
 
 
@@ -328,32 +330,39 @@ def _oracle(inp):
     return None
 
 
+_AVOID = " [seeded inputs are restricted by construction to classes that cannot touch a known finding: no Pauli error on the " \
+         "stabilizer backend (F1), uniform placement on controlled gates (F2), no loss of rate exactly 1 (F3), no ClassicalCNOT/CZ with " \
+         "noise simulation on the stabilizer backend (F4), Pauli errors never on mixed-type wrappers via assign_noise (F5), no loss / " \
+         "depolarizing executed before a measuring operation (F6, F7)]"
 _UNI = "unitary circuits (H,P,P^dag,X,Y,Z,I, wrappers, CNOT, CZ between any registers), n<=3 (thorough n<=4): all one-op and " \
        "structured two-op circuits on 1 emitter + 1 photon x noise in {Dep(0,1/4,1), Loss(0,1/2,1)} x {before, after}, plus " \
        "seeded random circuits of 3-8 ops with random strengths in [0,1]"
 S.item("compile.dm.physical.uniform_placement", site="graphiq.backends.compiler_base:CompilerBase.compile",
-       bound=_UNI + " and Pauli errors; controlled gates carry the same placement on control and target",
+       bound=_UNI + " and Pauli errors; controlled gates carry the same placement on control and target" + _AVOID,
        clause="the density-matrix result is PSD with trace = product of the photon survival probabilities")(_physical)
 S.item("compile.dm.physical.split_placement", site="graphiq.backends.compiler_base:CompilerBase.compile",
-       bound="as above; at least one controlled gate whose control noise and target noise have different placements "
-             "(one before, one after) and a photon loss in the slot compile() handles second",
+       bound="fixed sample, seed-independent (touches known finding C06-F2): 18 evenly spaced of the structured 1 emitter + 1 photon "
+             "circuits with a controlled gate whose control and target noise have different placements and a photon loss in the 'after' slot",
        clause="the density-matrix result is PSD with trace = product of the photon survival probabilities")(_physical)
 S.item("compile.backend_agreement.dep_loss", site="graphiq.backends.compiler_base:CompilerBase.compile",
-       bound=_UNI + " (no Pauli errors); targets: all stabilizer states n<=2, every 27th of the 1080 for n=3, and the full matrices",
+       bound=_UNI + " (no Pauli errors); targets: all stabilizer states n<=2, every 27th of the 1080 for n=3, and the full matrices" + _AVOID,
        clause="the mixed-stabilizer result has the same total weight and the same fidelity with any pure stabilizer target")(_agreement)
 S.item("compile.backend_agreement.total_loss", site="graphiq.noise.noise_models:DepolarizingNoise.apply",
-       bound="the circuits of compile.backend_agreement.dep_loss in which some photon loss has rate exactly 1",
+       bound="fixed sample, seed-independent (touches known finding C06-F3): 18 evenly spaced structured circuits whose last "
+             "controlled gate carries two noises one of which is a photon loss of rate exactly 1",
        clause="the mixed-stabilizer result has the same total weight and the same fidelity with any pure stabilizer target "
               "(any strength in [0,1])")(_agreement)
 S.item("compile.backend_agreement.pauli_error", site="graphiq.noise.noise_models:PauliError.apply",
-       bound="circuits on 1 emitter + 1 photon with a Pauli error X|Y|Z on one gate, before or after",
+       bound="fixed sample, seed-independent (touches known finding C06-F1): 15 evenly spaced structured circuits on 1 emitter + "
+             "1 photon with a Pauli error X|Y|Z on one gate, before or after",
        clause="the mixed-stabilizer result has the same total weight and the same fidelity with any pure stabilizer target")(_agreement)
 S.item("compile.dm.placement_oracle.uniform_placement", site="graphiq.backends.compiler_base:CompilerBase.compile",
-       bound=_UNI + " and Pauli errors; same placement on control and target of a controlled gate",
+       bound=_UNI + " and Pauli errors; same placement on control and target of a controlled gate" + _AVOID,
        clause="noise models placed before or after a gate: the result is the gate sequence with each channel at its place; "
               "op.noise is restored; recompiling reproduces the state")(_oracle)
 S.item("compile.dm.placement_oracle.split_placement", site="graphiq.backends.compiler_base:CompilerBase.compile",
-       bound="controlled gates whose control noise and target noise have different placements, both non-trivial",
+       bound="fixed sample, seed-independent (touches known finding C06-F2): 18 evenly spaced structured circuits with a controlled "
+             "gate whose control noise and target noise have different placements, both non-trivial",
        clause="noise models placed before or after a gate (control before / target after and vice versa)")(_oracle)
 
 
@@ -419,7 +428,8 @@ S.item("compile.zero_strength", site="graphiq.backends.compiler_base:CompilerBas
              "Depolarizing(0) or PhotonLoss(0), before or after; noise_simulation=True, both backends",
        clause="noise of zero strength reproduces the noiseless state exactly")(zero_strength)
 S.item("compile.zero_strength.classical_controlled", site="graphiq.backends.stabilizer.compiler:StabilizerCompiler.compile_one_gate",
-       bound="zero-strength circuits that contain a ClassicalCNOT or ClassicalCZ",
+       bound="fixed sample, seed-independent (touches known finding C06-F4): 16 structured zero-strength circuits that contain a "
+             "ClassicalCNOT or ClassicalCZ",
        clause="noise of zero strength reproduces the noiseless state exactly")(zero_strength)
 
 
@@ -455,7 +465,8 @@ S.item("compile.empty_noise_map", site="graphiq.circuit.circuit_dag:CircuitDAG.a
              "entries), and the same gates built with SolverBase._identify_noise/_wrap_noise(op, {}); noise_simulation=True, both backends",
        clause="an empty noise map reproduces the noiseless state exactly")(empty_map)
 S.item("compile.empty_noise_map.classical_controlled", site="graphiq.backends.stabilizer.compiler:StabilizerCompiler.compile_one_gate",
-       bound="the same with circuits that contain a ClassicalCNOT or ClassicalCZ",
+       bound="fixed sample, seed-independent (touches known finding C06-F4): the same 16 structured circuits that contain a "
+             "ClassicalCNOT or ClassicalCZ",
        clause="an empty noise map reproduces the noiseless state exactly")(empty_map)
 
 
@@ -560,7 +571,8 @@ S.item("assign_noise.map_oracle", site="graphiq.circuit.circuit_dag:CircuitDAG.a
        bound="as above, circuits whose wrappers are single-gate or palindromic in gate type; maps also give Pauli errors; dm backend",
        clause="every map from (register type, gate type) to a noise model is realised gate by gate")(_assign_case)
 S.item("assign_noise.map_oracle.wrappers", site="graphiq.circuit.circuit_dag:CircuitDAG._noisy_gates,_find_wrapped_noise",
-       bound="circuits with a wrapper of two different gate types of which the map gives exactly one a Pauli error",
+       bound="fixed sample, seed-independent (touches known finding C06-F5): 24 evenly spaced of the 96 circuits with a wrapper of "
+             "two different gate types of which the map gives exactly one a Pauli error",
        clause="every map from (register type, gate type) to a noise model is realised gate by gate")(_assign_case)
 S.item("solver_base.noise_helpers", site="graphiq.solvers.solver_base:SolverBase._identify_noise,_wrap_noise",
        bound="seeded random unitary circuits n<=3 x random maps gate class name -> {Dep, Loss, Pauli}; circuits built with the "
@@ -570,30 +582,32 @@ S.item("solver_base.noise_helpers", site="graphiq.solvers.solver_base:SolverBase
 
 # ------------------------------------------------------------------ Infidelity on both compiled states
 @S.item("Infidelity.evaluate.noisy_states", site="graphiq.metrics:Infidelity.evaluate",
-        bound="seeded random unitary circuits n<=3 with depolarizing noise only (trace preserving) x stabilizer targets "
-              "(all n<=2, every 90th n=3) held as stabilizer for the mixture and as density matrix for the dm state",
+        bound="seeded random unitary circuits n<=3 with depolarizing noise only (trace preserving), each against stabilizer targets "
+              "(all 6 for n=1, every 6th of 60 for n=2, every 90th of 1080 for n=3) held as stabilizer for the mixture and as density "
+              "matrix for the dm state",
         clause="the same fidelity with any pure stabilizer target (as observed through the Infidelity metric)")
 def infidelity_noisy(inp):
     from graphiq.backends.stabilizer.clifford_tableau import CliffordTableau
     from graphiq.metrics import Infidelity
     from graphiq.state import QuantumState
 
-    cj, k = inp
+    cj, ks = inp
     n = _n(cj)
-    v, rows, full = _full(n)[k]
     want, _ = rn.run_noisy(cj["np"], cj["ne"], cj["ops"])
-    fid = float(np.real(np.vdot(v, want @ v)))
-    t, p = f_stab.full_rows_to_table(full)
-    tq_s = QuantumState(CliffordTableau(t, p), rep_type="s")
-    tq_d = QuantumState(core.dm(v), rep_type="dm")
     ss = _compile(_mk_circuit(cj), "stabilizer", True)
     ds = _compile(_mk_circuit(cj), "dm", True)
-    a = float(Infidelity(tq_s).evaluate(ss, None))
-    b = float(Infidelity(tq_d).evaluate(ds, None))
-    if abs(a - (1 - fid)) > TOL:
-        return f"Infidelity(stabilizer target, mixture)={a!r}, expected {1 - fid!r}"
-    if abs(b - (1 - fid)) > 1e-7:
-        return f"Infidelity(dm target, dm state)={b!r}, expected {1 - fid!r}"
+    for k in ks:
+        v, rows, full = _full(n)[k]
+        fid = float(np.real(np.vdot(v, want @ v)))
+        t, p = f_stab.full_rows_to_table(full)
+        tq_s = QuantumState(CliffordTableau(t, p), rep_type="s")
+        tq_d = QuantumState(core.dm(v), rep_type="dm")
+        a = float(Infidelity(tq_s).evaluate(ss, None))
+        b = float(Infidelity(tq_d).evaluate(ds, None))
+        if abs(a - (1 - fid)) > TOL:
+            return f"target #{k}: Infidelity(stabilizer target, mixture)={a!r}, expected {1 - fid!r}"
+        if abs(b - (1 - fid)) > 1e-7:
+            return f"target #{k}: Infidelity(dm target, dm state)={b!r}, expected {1 - fid!r}"
     return None
 
 
@@ -604,18 +618,20 @@ S.item("compile.measured.physical.no_loss_before_measurement", site="graphiq.bac
              "photon loss of rate > 0 precedes a measuring operation",
        clause="the density-matrix result is PSD with trace = product of the photon survival probabilities")(_physical)
 S.item("compile.measured.physical.loss_before_measurement", site="graphiq.backends.density_matrix.state:DensityMatrix.apply_measurement",
-       bound="as above; some photon loss of rate > 0 is executed before a measuring operation",
+       bound="fixed list, seed-independent (touches known finding C06-F6): the structured emission-pattern circuits in which a "
+             "photon loss of rate > 0 is executed before the MeasurementCNOTandReset",
        clause="the density-matrix result is PSD with trace = product of the photon survival probabilities")(_physical)
 S.item("compile.measured.agreement.noise_after_measurements", site="graphiq.backends.compiler_base:CompilerBase.compile",
        bound="seeded random circuits n<=3 measuring with MeasurementCNOTandReset / MeasurementZ only; every noise of non-zero "
              "strength (Dep, Loss) is executed after the last measuring operation",
        clause="the mixed-stabilizer result has the same total weight and the same fidelity with any pure stabilizer target")(_agreement)
 S.item("compile.measured.agreement.depolarizing_before_measurement", site="graphiq.backends.stabilizer.state:MixedStabilizer.apply_measurement",
-       bound="seeded random circuits n<=3 measuring with MeasurementCNOTandReset / MeasurementZ only; depolarizing noise of "
-             "non-zero strength (and no loss) is executed before a measuring operation",
+       bound="fixed sample, seed-independent (touches known finding C06-F7): structured circuits in which a depolarized emitter "
+             "(p in {1/4,3/4,1}, before/after X|H|I) is measured by MeasurementCNOTandReset / MeasurementZ",
        clause="the mixed-stabilizer result has the same total weight and the same fidelity with any pure stabilizer target")(_agreement)
 S.item("compile.measured.agreement.classical_controlled", site="graphiq.backends.stabilizer.compiler:StabilizerCompiler.compile_one_gate",
-       bound="seeded random circuits n<=3 that contain a ClassicalCNOT or ClassicalCZ, noise executed only after the last measuring operation",
+       bound="fixed sample, seed-independent (touches known finding C06-F4): 16 structured circuits with a ClassicalCNOT or "
+             "ClassicalCZ, noise executed only after it",
        clause="the mixed-stabilizer result has the same total weight and the same fidelity with any pure stabilizer target")(_agreement)
 
 
@@ -808,9 +824,16 @@ def _rand_map(rng, kinds, pairs=True):
     return m
 
 
-_FIXED_SEED = 20261002  # inputs drawn from this generator do not depend on VERIF_SEED; they are put FIRST in every item so
-#                          that the first recorded failures of an item (the ones a known finding can name) are the same for
-#                          every seed; the seeded inputs follow
+_FIXED_SEED = 20261002  # a second, VERIF_SEED-independent pool of random circuits for the must-pass items.  The items that touch
+#                          known findings take FIXED structured lists only (same for every seed and for both tiers).
+
+
+def _take(lst, k):
+    """at most k evenly spaced elements of a deterministic list (fixed samples for the classes that touch known findings)"""
+    if len(lst) <= k:
+        return list(lst)
+    step = -(-len(lst) // k)
+    return lst[::step][:k]
 
 
 def _unitary_pool(rng, nrand, shapes):
@@ -840,7 +863,6 @@ def _measured_pool(rng, count):
 
 def run(tier, seed):
     rng = np.random.default_rng(seed)
-    frng = np.random.default_rng(_FIXED_SEED)  # channel-level failing class
     frng_u = np.random.default_rng(_FIXED_SEED + 1)  # unitary circuit pool (thorough pool extends the quick pool)
     frng_m = np.random.default_rng(_FIXED_SEED + 2)  # measured circuit pool
     thorough = tier == "thorough"
@@ -864,10 +886,10 @@ def run(tier, seed):
                 if model == "dep":
                     reglists += [[a, b] for a in range(n) for b in range(n) if a != b]
                 for regs in reglists:
-                    r = frng if (model == "pauli" and backend != "dm") else rng
+                    r = rng
                     params = strengths + [float(np.round(r.random(), 6)) for _ in range(2)] if model != "pauli" else ["X", "Y", "Z", "I"]
                     for p in params:
-                        for rep in range(3 if (thorough and r is rng) else 1):
+                        for rep in range(3 if thorough else 1):
                             if backend == "dm":
                                 sspec = ["rand", n, int(r.integers(1, 2**n + 1)), 1, int(r.integers(1 << 30))]
                             else:
@@ -876,6 +898,10 @@ def run(tier, seed):
                                 ws = ws / ws.sum() if r.random() < 0.5 else ws / ws.sum() * 0.7
                                 sspec = [n, [[float(np.round(w, 6)), int(r.integers(nst))] for w in ws]]
                             cases.append([[model, p, 1], "dm" if backend == "dm" else "s", sspec, regs])
+            if model == "pauli" and backend != "dm":  # touches known finding C06-F1: explicit fixed list
+                cases = [[["pauli", P, 1], "s", sspec, regs] for P in ("X", "Y", "Z")
+                         for sspec, regs in (([1, [[1.0, 2]]], [0]), ([1, [[0.25, 0], [0.75, 4]]], [0]),
+                                             ([2, [[0.5, 7], [0.5, 33]]], [0]), ([2, [[0.3, 12], [0.2, 41], [0.5, 58]]], [1]))]
             S.map(f"{cls}.apply.{backend}", cases,
                   nontrivial=lambda c: not (c[0][0] != "pauli" and c[0][1] == 0.0) and not (c[0][0] == "pauli" and c[0][1] == "I"))
 
@@ -886,33 +912,30 @@ def run(tier, seed):
     structured_pauli = _structured(_PAULI, [(a, b) for a in _PAULI for b in _NONE + _PAULI if b[0] == "none" or a[2] == b[2]])
     split_pairs = [(a, b) for a in _DEP + _LOSS + _PAULI for b in _DEP + _LOSS + _PAULI if a[2] != b[2]]
     structured_split = [c for c in _structured([], split_pairs)]
-    structured_ids = {id(c) for c in structured_dl + structured_pauli + structured_split}
 
-    nrand = 1100 if thorough else 220
+    nrand = 1100 if thorough else 180
     shapes = _shapes(rng) + ([(2, 2), (3, 1)] if thorough else [])
     fa = _unitary_pool(frng_u, 400 if thorough else 130, _shapes(frng_u))
     sa = _unitary_pool(rng, nrand, shapes)
     rand_dl, rand_dlp, rand_split, rand_zero = (fa[i] + sa[i] for i in range(4))
-    fixed_ids = {id(c) for pool in fa for c in pool}  # failing-class items take structured + fixed-pool inputs only
-
-    def det(cs):
-        return [c for c in cs if id(c) in fixed_ids or id(c) in structured_ids]
 
     uniform_all = structured_dl + structured_pauli + rand_dl + [c for c in rand_dlp if not _is_split(c)]
     S.map("compile.dm.physical.uniform_placement", uniform_all, nontrivial=lambda c: any(ns[0] != "none" for ns in _noise_slots(c)))
     split_all = structured_split + rand_split
-    S.map("compile.dm.physical.split_placement", det([c for c in split_all if _split_drops_loss(c)]))
+    S.map("compile.dm.physical.split_placement", _take([c for c in structured_split if _split_drops_loss(c)], 18))
     # split placement where no loss is dropped still has to be physical: goes to the must-pass item
     S.map("compile.dm.physical.uniform_placement", [c for c in split_all if not _split_drops_loss(c)])
 
     agree = structured_dl + rand_dl + [c for c in split_all if not _has(c, "pauli")]
     S.map("compile.backend_agreement.dep_loss", [c for c in agree if not _total_loss(c)],
           nontrivial=lambda c: _has(c, "dep") or _has(c, "loss"))
-    S.map("compile.backend_agreement.total_loss", det([c for c in agree if _total_loss(c)]))
-    S.map("compile.backend_agreement.pauli_error", [c for c in structured_pauli][:: 4])
+    S.map("compile.backend_agreement.total_loss",
+          _take([c for c in structured_dl if _total_loss(c) and any(op[0] in ("cx", "cz") and op[5][0][0] != "none" and op[5][1][0] != "none"
+                                                                    for op in c["ops"])], 18))
+    S.map("compile.backend_agreement.pauli_error", _take(structured_pauli, 15))
 
     S.map("compile.dm.placement_oracle.uniform_placement", uniform_all, nontrivial=lambda c: any(ns[0] != "none" for ns in _noise_slots(c)))
-    S.map("compile.dm.placement_oracle.split_placement", det([c for c in split_all if _split_nontrivial(c)]))
+    S.map("compile.dm.placement_oracle.split_placement", _take([c for c in structured_split if _split_nontrivial(c)], 18))
     S.map("compile.dm.placement_oracle.uniform_placement", [c for c in split_all if not _split_nontrivial(c)])
 
     # ---------------- measured circuits
@@ -934,34 +957,29 @@ def run(tier, seed):
                 meas.append({"np": 1, "ne": 1, "nc": 1, "ops": [["g", g, "e", 0, ["dep", pdep, a]], ["mcr", "e", 0, "p", 0, 0]]})
                 meas.append({"np": 1, "ne": 1, "nc": 1, "ops": [["g", g, "e", 0, ["dep", pdep, a]], ["cx", "e", 0, "p", 0, [["none"], ["none"]]],
                                                                ["mz", "e", 0, 0]]})
-    structured_ids |= {id(c) for c in meas}
-    fmeas = _measured_pool(frng_m, 500 if thorough else 250)
-    fixed_ids |= {id(c) for c in fmeas}
-    meas += fmeas + _measured_pool(rng, 1000 if thorough else 350)
+    meas_struct = list(meas)  # the fixed lists for the classes that touch known findings come from here
+    meas += _measured_pool(frng_m, 500 if thorough else 250) + _measured_pool(rng, 1000 if thorough else 280)
     before = [(c, _noise_before_measurement(c)) for c in meas]
     S.map("compile.measured.physical.no_loss_before_measurement", [c for c, k in before if "loss" not in k])
-    S.map("compile.measured.physical.loss_before_measurement", det([c for c, k in before if "loss" in k]))
+    sbefore = [(c, k) for c, k in before[: len(meas_struct)]]
+    S.map("compile.measured.physical.loss_before_measurement", _take([c for c, k in sbefore if "loss" in k], 18))
     S.map("compile.measured.agreement.noise_after_measurements", [c for c, k in before if not k and not _has_cc(c) and not _total_loss(c)])
     S.map("compile.measured.agreement.depolarizing_before_measurement",
-          det([c for c, k in before if k == {"dep"} and not _has_cc(c) and not _total_loss(c)]))
-    S.map("compile.measured.agreement.classical_controlled", det([c for c, k in before if not k and _has_cc(c)]))
+          _take([c for c, k in sbefore if k == {"dep"} and not _has_cc(c) and not _total_loss(c)], 18))
+    S.map("compile.measured.agreement.classical_controlled", _take([c for c, k in sbefore if not k and _has_cc(c)], 16))
 
     # ---------------- switchability
     off = structured_dl[:: 5] + structured_pauli[:: 5] + structured_split[:: 9] + rand_dlp + rand_split + meas
     S.map("compile.switched_off", off, nontrivial=lambda c: any(ns[0] != "none" for ns in _noise_slots(c)))
     zero_structured = [c for c in structured_dl if all(ns[0] == "none" or ns[1] == 0.0 for ns in _noise_slots(c))]
-    zero_meas = []
-    for c in meas[:: 3]:
-        z = _zeroed(c)
-        zero_meas.append(z)
-        if id(c) in fixed_ids or id(c) in structured_ids:
-            fixed_ids.add(id(z))
+    zero_meas = [_zeroed(c) for c in meas[:: 3]]
+    zero_cc_struct = _take([_zeroed(c) for c in meas_struct if _has_cc(c)], 16)
     zs = zero_structured + rand_zero + zero_meas
     S.map("compile.zero_strength", [c for c in zs if not _has_cc(c)], nontrivial=lambda c: any(ns[0] != "none" for ns in _noise_slots(c)))
-    S.map("compile.zero_strength.classical_controlled", det([c for c in zs if _has_cc(c)]))
+    S.map("compile.zero_strength.classical_controlled", zero_cc_struct)
     em = [c for c in rand_zero] + zero_meas[:: 2] + zero_structured[:: 6]
     S.map("compile.empty_noise_map", [c for c in em if not _has_cc(c)])
-    S.map("compile.empty_noise_map.classical_controlled", det([c for c in zs if _has_cc(c)]))
+    S.map("compile.empty_noise_map.classical_controlled", zero_cc_struct)
 
     # ---------------- noise maps
     nmap = 900 if thorough else 250
@@ -989,20 +1007,20 @@ def run(tier, seed):
                     cj = {"np": 1, "ne": 1, "nc": 1, "ops": [["g", "H", "e", 0, ["none"]], ["cx", "e", 0, "p", 0, [["none"], ["none"]]],
                                                             ["w", [core.CLASS1[g1], core.CLASS1[g2]], rt, 0, [["none"], ["none"]]]]}
                     wr.append([cj, dict(_EMPTY_MAP, **{rt: {g1: ["pauli", pl, a]}}), "assign.oracle"])
-    S.map("assign_noise.map_oracle.wrappers", wr)
+    S.map("assign_noise.map_oracle.wrappers", _take(wr, 24))
     # wrappers of mixed gate types stay in the must-pass item as long as the map gives no Pauli error to a one-qubit gate
     S.map("assign_noise.map_oracle", [x for x in oracle_wrap if not _map_has_pauli_1q(x[1])])
     S.map("solver_base.noise_helpers", helper)
 
     # ---------------- Infidelity on compiled states
     inf = []
-    for i in range(120 if thorough else 40):
+    for i in range(150 if thorough else 48):
         n_p, n_e = base_shapes[int(rng.integers(len(base_shapes)))]
         cj = _rand_circuit(rng, n_p, n_e, int(rng.integers(3, 7)), ["none", "dep"])
         n = n_p + n_e
         nst = len(dmref.stab_states(n))
         ks = range(nst) if n == 1 else (range(0, nst, 6) if n == 2 else range(0, nst, 90))
-        inf += [[cj, int(k)] for k in ks]
+        inf.append([cj, [int(k) for k in ks]])
     S.map("Infidelity.evaluate.noisy_states", inf)
 
     S.note("expected trace = product over all noise slots of (1 - loss rate); PSD tolerance -1e-9 (floating point, [N] in DESIGN)")
